@@ -437,7 +437,12 @@ def gen_case(rng, stream=None):
     # undeclare one dependency between the build and the expansion: findSetupProduct then finds nothing while
     # getSetupVersion still reports the version (the model's spv / sv); outside the property's premise -> oracle (i) + never_foreign only
     case["tamper"] = [rng.choice(g["names"][1:])] if rng.random() < 0.07 else []
-    case["cli_check"] = rng.random() < 0.25          # also run `eups expandtable` itself and compare with the API call
+    if case["tamper"] and (g.get("tag_named") or {}).get("product") == case["tamper"][0]:
+        # a set-up version named like a tag AND undeclared before the expansion: findSetupVersion then (by design: old records
+        # held tag names) takes the recorded name for the tag and reports the tagged version -- outside every premise (O6)
+        case["tamper"] = []
+    case["cli_check"] = rng.random() < 0.3           # also run `eups expandtable` itself and compare with the API call
+    case["cli_mode"] = rng.choice(["stdout", "stdout", "inplace", "outdir", "stdin", "warn"])   # where the command reads / writes
     case["expanded_deps"] = []
     if stream == "cf" and rng.random() < 0.4 and not has_unsetup(case):       # installed products usually carry expanded tables
         case["expanded_deps"] = [[n, v] for n, v, _ in g["decl"] if (n, v) != (topn, topv) and rng.random() < 0.6]
